@@ -454,6 +454,90 @@ def element_check(plan, wb, resb, positions, stats):
     return None
 
 
+F32_EPS, F64_EPS = 2.0 ** -23, 2.0 ** -52
+
+
+def close_enough(x, y, eps, scale):
+    """O3 tolerance: equal, both NaN, or within 64 eps of the operands' magnitude (different code paths)"""
+    if x == y or (x != x and y != y):
+        return True
+    if x != x or y != y or x in (float("inf"), float("-inf")) or y in (float("inf"), float("-inf")):
+        return False
+    return abs(x - y) <= 64 * eps * max(abs(x), abs(y), scale)
+
+
+def scalar_binding_check(plan, wb, resb, positions, stats):
+    """O3: the element class's own binding of the same name (V3fArray.cross <-> V3f.cross, imath.sin(FloatArray) <->
+    imath.sin(float)), applied to element i of every array argument, against element i of the array result.
+    Integer / boolean results must be identical; floating results within a deliberately loose tolerance (its job
+    is to catch a wrong element function, argument or overload, not to re-judge numerics)."""
+    e = plan["entry"]
+    if plan["mode"] not in ("scaled", "nz"):
+        return None
+    n = plan["n"]
+    tn = type(resb).__name__
+    if tn not in PT.ARRAYS or len(resb) != n or e["name"].startswith("__i"):
+        return None
+    if any(a.get("kind") == "unmasked" for a in plan["args"]):
+        return None
+    rt = PT.ARRAYS[tn]
+    wc = World(plan)
+    arr_args = [i for i, a in enumerate(plan["args"]) if PT.is_array(a["t"])]
+    if e["owner"] and 0 not in arr_args:
+        return None        # non-array owner: O4's job
+    if e["owner"] and PT.ARRAYS[e["owner"]].name.startswith("_"):
+        return None        # elements of the basic arrays are Python numbers: Python's own arithmetic is no imath binding
+    # documented: the array form of Quat slerp is the shortest-arc interpolation (upstream's test asserts exactly that)
+    scalar_name = "slerpShortestArc" if (e["name"] == "slerp" and e["owner"].startswith("Quat")) else e["name"]
+    for p in positions[:6]:
+        elems = []
+        scale = 1.0
+        for i, a in enumerate(plan["args"]):
+            v = wc.args[i][p] if i in arr_args else wc.args[i]
+            elems.append(v)
+            tt = PT.ARRAYS.get(a["t"]) or PT.TYPES.get(a["t"])
+            if tt is not None and tt.isfloat:
+                try:
+                    scale *= max(1.0, max(abs(x) for x in tt.flat(v)))
+                except Exception:  # noqa: BLE001
+                    pass
+        try:
+            if e["owner"]:
+                fn = getattr(elems[0], scalar_name, None)
+                if fn is None:
+                    stats["o3_unavailable"] = stats.get("o3_unavailable", 0) + 1
+                    return None
+                r1 = fn(*elems[1:])
+            else:
+                r1 = getattr(imath, e["name"])(*elems)
+        except Exception:  # noqa: BLE001 - no scalar overload of that shape
+            stats["o3_unavailable"] = stats.get("o3_unavailable", 0) + 1
+            return None
+        if r1 is NotImplemented:
+            stats["o3_unavailable"] = stats.get("o3_unavailable", 0) + 1
+            return None
+        st = PT.TYPES.get(type(r1).__name__)
+        try:
+            f1 = st.flat(r1) if st is not None and not st.name.startswith("_") else [r1]
+            f2 = rt.flat(resb[p])
+            f1 = [float(x) if rt.isfloat else int(x) for x in f1]
+        except Exception:  # noqa: BLE001
+            stats["o3_unavailable"] = stats.get("o3_unavailable", 0) + 1
+            return None
+        if len(f1) != len(f2):
+            stats["o3_unavailable"] = stats.get("o3_unavailable", 0) + 1
+            return None
+        stats["o3_checked"] = stats.get("o3_checked", 0) + 1
+        if rt.isfloat:
+            eps = F32_EPS if rt.base == "f32" else F64_EPS
+            ok = all(close_enough(x, y, eps, scale) for x, y in zip(f1, f2))
+        else:
+            ok = [int(x) for x in f1] == [int(y) for y in f2]
+        if not ok:
+            return ("o3-scalar-binding/result", "position %d: array form %r, scalar binding %r" % (p, resb[p], r1))
+    return None
+
+
 def scalar_loop_check(plan, resb, stats):
     """O4: methods of a non-array owner taking one array (Box.extendBy / intersects, FrustumTest.isVisible ...):
     compare with the Python loop over the scalar overload."""
@@ -572,6 +656,10 @@ def execute(plan, explicit=None):
             bad = element_check(plan, wb, rb, o2_positions(plan, trace, n), stats)
             if bad:
                 fail(bad[0], bad[1])
+            if out["verdict"] == "ok":
+                bad3 = scalar_binding_check(plan, wb, rb, o2_positions(plan, trace, n), stats)
+                if bad3:
+                    fail(bad3[0], bad3[1])
             if out["verdict"] == "ok":
                 o4 = scalar_loop_check(plan, rb, stats)
                 if o4 and o4[0] == "state":
